@@ -20,6 +20,10 @@ namespace XC.C24
 
 inductive Kind where
   | bool | arr (n : Nat) | u8 | u32 | u64 | str | bytes | rest | names | mpint
+  /-- a field type the codec does not support. `panics`: arrays / slices / pointers of other element types make
+      Marshal panic; any other kind (int32, …) has no case in Marshal's switch and is skipped silently.
+      Unmarshal answers a field error when it reaches such a field. -/
+  | bad (panics : Bool)
 deriving DecidableEq, Repr
 
 inductive Val where
@@ -33,6 +37,7 @@ inductive Val where
   | rest (bs : Bytes)
   | names (l : List Bytes)
   | mpint (n : Int)
+  | bad (panics : Bool)   -- placeholder for a field of unsupported type
 deriving DecidableEq, Repr
 
 structure Schema where
@@ -147,6 +152,7 @@ def marshalField : Val → Option Bytes
     let needed := intLength n
     let m := marshalInt n
     if m.length ≤ needed then some (m ++ zeros (needed - m.length)) else none
+  | .bad panics => if panics then none else some []
 
 def marshalFields : List Val → Option Bytes
   | [] => some []
@@ -209,6 +215,7 @@ def unmarshalField (k : Kind) (data : Bytes) : Except Err (Val × Bytes) :=
   | .mpint => match parseInt data with
     | none => .error .short
     | some (n, r) => .ok (.mpint n, r)
+  | .bad _ => .error .field
 
 def unmarshalFields : List Kind → Bytes → Except Err (List Val × Bytes)
   | [], data => .ok ([], data)
@@ -286,6 +293,10 @@ def schemaOf : String → Option Schema
   | "VerifZooInts" => some ⟨[204], [mpint, mpint, mpint, u64]⟩
   | "VerifZooNames" => some ⟨[205], [names, names, str, names]⟩
   | "VerifZooBytes" => some ⟨[], [bytes, arr 1, bytes, u8, arr 7]⟩
+  | "VerifZooBadArray" => some ⟨[206], [u32, bad true]⟩
+  | "VerifZooBadSlice" => some ⟨[207], [str, bad true]⟩
+  | "VerifZooBadPtr" => some ⟨[208], [bool, bad true, u8]⟩
+  | "VerifZooBadKind" => some ⟨[209], [u32, bad false, str]⟩
   | _ => none
 
 /-- the `switch packet[0]` of `decode` -/
